@@ -188,6 +188,70 @@ theorem T_x86_drop_refines (mode : Mode) (s : MState) (g : Guard)
   by_cases c : g.jit = 0
   · simp [c, toEvent, hlen]; omega
   · simp [c, toEvent, hlen]; omega
+/-- The boolean installation `replace_function_return_boolean(func, v)` as translated, first hint
+    honoured with `jit`: page size, the hinted 8-byte `mmap`, the stub `X86.boolStub v` copied to `jit`
+    and flushed, then `patch_and_guard` with jit size 8. -/
+theorem T_x86_install_bool (mode : Mode) (func jit : Nat) (v : Bool) (br saved : List Nat)
+    (log : List (String × List Val)) (tail : List Val)
+    (hf : func + 134217728 + 4096 < 18446744073709551616)
+    (hj : jit < 18446744073709551615)
+    (hnear : Alloc.absDiff jit func < 134217728)
+    (hbr : X86.genBranch mode func jit = Res.ok br) :
+    run (GenX86.replace_function_return_boolean mode 2 func v)
+        { answers := Val.n (4096 : Nat) :: Val.n jit :: Val.bs saved :: Val.n 4096 :: Val.n 0 :: tail, log := log } =
+      (Res.ok (), { answers := tail, log := log ++
+        [("sysconf", [Val.n 30]),
+         ("mmap", [Val.n ((func - 134217728 : Nat) : Int), Val.n 8, Val.n allocProt, Val.n allocFlags, Val.n (-1), Val.n 0]),
+         ("copy_nonoverlapping", [Val.bs (X86.boolStub v), Val.n jit, Val.n 8]),
+         ("__clear_cache", [Val.n jit, Val.n ((jit + 8 : Nat) : Int)]),
+         ("read_bytes", [Val.n func, Val.n br.length]),
+         ("sysconf", [Val.n 30]),
+         ("mprotect", [Val.n ((Machine.protectSpan func br.length).1 : Nat), Val.n ((Machine.protectSpan func br.length).2 : Nat), Val.n 7]),
+         ("copy_nonoverlapping", [Val.bs br, Val.n func, Val.n br.length]),
+         ("__clear_cache", [Val.n func, Val.n ((func + br.length : Nat) : Int)]),
+         ("PatchGuard::new", [Val.n func, Val.bs saved, Val.n br.length, Val.n jit, Val.n 8])] }) := by
+  have hjb : jit < func + 134217728 := by
+    unfold Alloc.absDiff at hnear; split at hnear <;> omega
+  have hs : search func 134217728 4096 8 [some jit] =
+      (AResult.ok jit, [AEvent.mmap (func - 134217728) 8 (some jit)]) := by
+    have c : func - 134217728 ≤ func + 134217728 := by omega
+    simp [search, loop, c, hnear]
+  have ha := T_alloc mode func 8 4096 (by omega) [some jit] (by intro x hx; simp at hx; omega) log
+    (Val.bs saved :: Val.n 4096 :: Val.n 0 :: tail) (by rw [hs]; simp)
+  rw [hs] at ha
+  simp only [List.map_cons, List.map_nil, encAns, List.cons_append, List.nil_append, List.length_cons,
+    List.length_nil, Nat.zero_add, Nat.reduceAdd, mmapCount, List.drop_succ_cons, List.drop_zero, encEv] at ha
+  have ha2 : run (GenX86.allocate_jit_memory mode 2 func 8)
+      { answers := Val.n ((4096 : Nat) : Int) :: Val.n (jit : Int) :: Val.bs saved :: Val.n 4096 :: Val.n 0 :: tail, log := log } =
+      (Res.ok jit, { answers := Val.bs saved :: Val.n 4096 :: Val.n 0 :: tail, log := log ++ [("sysconf", [Val.n 30])] ++ [("mmap", [Val.n ((func - 134217728 : Nat) : Int), Val.n ((8 : Nat) : Int), Val.n allocProt, Val.n allocFlags, Val.n (-1), Val.n 0])] }) := by
+    rw [GenX86.allocate_jit_memory]; exact ha
+  rw [GenX86.replace_function_return_boolean]
+  rw [run_bind_ok _ _ _ _ _ ha2]
+  rw [run_bind_ok _ _ _ _ _ (T_x86_boolStub mode jit v _ (by omega))]
+  rw [run_bind_ok _ _ _ _ _ (T_x86_patch_and_guard mode func jit 8 br saved _ tail (by omega) (by omega) hbr (by omega)), run_pure]
+  simp
+
+/-- refinement of `Machine.installX86` with the boolean payload by the translated code -/
+theorem T_x86_install_bool_refines (mode : Mode) (s s' : MState) (func jit : Nat) (v : Bool) (saved : List Nat)
+    (log : List (String × List Val)) (tail : List Val)
+    (hf : func + 134217728 + 4096 < 18446744073709551616)
+    (hj : jit < 18446744073709551615) (hnear : Alloc.absDiff jit func < 134217728)
+    (hi : installX86 mode s func (Payload.bool v) jit = some s') :
+    (run (GenX86.replace_function_return_boolean mode 2 func v)
+        { answers := Val.n (4096 : Nat) :: Val.n jit :: Val.bs saved :: Val.n 4096 :: Val.n 0 :: tail, log := log }).1 = Res.ok () ∧
+    s'.log = Event.ret ::
+      ((((run (GenX86.replace_function_return_boolean mode 2 func v)
+        { answers := Val.n (4096 : Nat) :: Val.n jit :: Val.bs saved :: Val.n 4096 :: Val.n 0 :: tail, log := log }).2.log.drop log.length).filterMap (toEvent jit)).reverse ++ s.log) := by
+  obtain ⟨code, br, hc, hb, hlog⟩ := installX86_log mode s s' func (Payload.bool v) jit hi
+  have hcode : code = X86.boolStub v := by
+    unfold payloadCode at hc; simp at hc; exact hc.symm
+  subst hcode
+  rw [T_x86_install_bool mode func jit v br saved log tail hf hj hnear hb]
+  refine ⟨rfl, ?_⟩
+  rw [hlog]
+  have hl := boolStub_len v
+  simp [toEvent, Payload.jitSize, X86.jitSizeBool, Generated.Consts.x86JitSizeBool, hl]
+  constructor <;> omega
 end Inj.Tie
 #print axioms Inj.Tie.T_x86_patch_and_guard
 #print axioms Inj.Tie.T_x86_install_exec
@@ -196,3 +260,5 @@ end Inj.Tie
 #print axioms Inj.Tie.T_x86_drop_refines
 #print axioms Inj.Tie.T_x86_clear_cache
 #print axioms Inj.Tie.T_x86_read_bytes
+#print axioms Inj.Tie.T_x86_install_bool
+#print axioms Inj.Tie.T_x86_install_bool_refines
